@@ -134,10 +134,11 @@ theorem C04_prefix_unperturbed (r : Run ℝ) (minV maxD minA : ℝ) (ff : Flags)
 /-- **C04_loop_outcomes** (full): a run ends in exactly one of: a result, the range error (with a reason), the
     two arithmetic errors the real code can raise (`ZeroDivisionError`, `math domain error`), or — in the model
     only — exhausted fuel; it never ends in a zero-finding error. -/
-theorem C04_loop_outcomes (r : Run ℝ) (ff : Flags) (sf : Nat) (bound : ℝ) (fuel : Nat) (l : LoopSt ℝ) :
-    (∃ l', loop r ff sf bound fuel l = .ok l') ∨ (∃ reason rows, loop r ff sf bound fuel l = .error (.range reason rows)) ∨
-    loop r ff sf bound fuel l = .error .zeroDiv ∨ loop r ff sf bound fuel l = .error .mathDomain ∨
-    loop r ff sf bound fuel l = .error .outOfFuel := by
+theorem C04_loop_outcomes (r : Run ℝ) (ff : Flags) (sf : Nat) (bound maxRange : ℝ) (fuel : Nat) (l : LoopSt ℝ) :
+    (∃ l', loop r ff sf bound maxRange fuel l = .ok l') ∨
+    (∃ reason rows, loop r ff sf bound maxRange fuel l = .error (.range reason rows)) ∨
+    loop r ff sf bound maxRange fuel l = .error .zeroDiv ∨ loop r ff sf bound maxRange fuel l = .error .mathDomain ∨
+    loop r ff sf bound maxRange fuel l = .error .outOfFuel := by
   induction fuel generalizing l with
   | zero => right; right; right; right; rfl
   | succ fuel ih =>
